@@ -58,8 +58,8 @@ func runC01(r *an.Run) {
 		})
 
 	r.Obl("commit-tx-perspectives-mirror", "MIRROR",
-		"the two CreateCommitTx calls of createUnsignedCommitmentTx (and of CreateCommitmentTxns) are images of each other under Local<->Remote config, our<->their balance and negated initiator flag; the local one is reached only when whoseCommit.IsLocal()",
-		"if the remote-perspective call is not the exact mirror of the local one the two peers build different transactions for the same state", 4,
+		"the two CreateCommitTx calls of createUnsignedCommitmentTx (and of CreateCommitmentTxns) are images of each other under Local<->Remote config, our<->their balance and negated initiator flag; the local one is reached only when whoseCommit.IsLocal(); in the funding path the first call is our perspective (local commit point, ourChanCfg, localBalance, initiator) and the two transactions are returned as (ours, theirs)",
+		"if the remote-perspective call is not the exact mirror of the local one the two peers build different transactions for the same state", 8,
 		func(o *an.Obl) {
 			f := p.Func(lw + "CommitmentBuilder.createUnsignedCommitmentTx")
 			sites := f.Calls(an.CalleeIs(lw+"CreateCommitTx"), false)
@@ -91,38 +91,39 @@ func runC01(r *an.Run) {
 				if an.Swap(a0, [][2]string{{"$p4", "$p5"}, {"Local", "Remote"}}) != a1 {
 					o.FailAt(g.ID+"#keyring-mirror", gs[1].Where(), "key rings of the two initial commitments are not mirrored: %s vs %s", a0, a1)
 				}
+				c01FundingPerspectives(o, g, gs)
 			} else {
 				o.FailAt(g.ID+"#CreateCommitTx-count", g.Where(g.Body.Pos()), "expected two CreateCommitTx calls in the funding path, found %d", len(gs))
 			}
 		})
 
 	r.Obl("dust-classification-agrees", "ROLE",
-		"every HtlcIsDust call site: the `incoming` argument agrees with the HTLC list of the enclosing loop (Updates.Local / outgoingHTLCs / updateLogs.Local => false, the Remote/incoming lists => true, or the HTLC's own Incoming flag together with its own amount); the commitment owner and the dust limit are selected by the same predicate; the weight loop (computeView) and the output-count and output loops (createUnsignedCommitmentTx) have identical fingerprints",
-		"a disagreement makes the commitment fee cover a different number of HTLCs than there are outputs — the mis-counted dust HTLC of the property text", 18,
+		"every HtlcIsDust call site: the `incoming` argument agrees with the HTLC list of the enclosing loop (Updates.Local / outgoingHTLCs / updateLogs.Local => false, the Remote/incoming lists => true, or the HTLC's own Incoming flag together with its own amount); the commitment owner and the dust limit are selected by the same predicate; the weight loop (computeView) and the output-count and output loops (createUnsignedCommitmentTx) have identical fingerprints: within one function all constant-direction sites agree on (chanType, owner, fee rate, dust limit), classify <loop element>.Amount.ToSatoshis(), and in the trimming loops (computeView, createUnsignedCommitmentTx, genRemoteHtlcSigJobs) the dust edge of the test ends the iteration without effect while the other edge does the work (GetDustSum: the reverse); the fee rate is that of the commitment being built (the evaluated view's rate in computeView, handed by fetchCommitmentView to the builder and stored in the commitment, from where the signer and populateHtlcIndexes read it); HtlcIsDust returns (htlcAmt - htlcFee) < dustLimit with the success fee for HTLCs the commitment owner receives and the timeout fee for those it offers; addHTLC adds the element of its loop with the direction of the loop's list; extractHtlcResolutions receives (local config, remote config) of one channel",
+		"a disagreement makes the commitment fee cover a different number of HTLCs than there are outputs — the mis-counted dust HTLC of the property text", 41,
 		func(o *an.Obl) { dustSites(o, r) })
 
 	r.Obl("second-level-signer-verifier-mirror", "ROLE",
-		"genRemoteHtlcSigJobs builds timeout txs for incoming and success txs for outgoing HTLCs of the remote commitment with (!IsInitiator, RemoteChanCfg.CsvDelay, remoteOutputIndex); genHtlcSigValidationJobs builds success txs for incoming and timeout txs for outgoing HTLCs of the local commitment with (IsInitiator, LocalChanCfg.CsvDelay, localOutputIndex); both subtract the matching fee function and use keyRing.RevocationKey/ToLocalKey and HtlcSigHashType",
-		"the verifier must rebuild byte-for-byte what the signer signed; any asymmetric argument makes every HTLC signature invalid for some channel type", 6,
+		"genRemoteHtlcSigJobs builds timeout txs for incoming and success txs for outgoing HTLCs of the remote commitment with (!IsInitiator, RemoteChanCfg.CsvDelay, remoteOutputIndex); genHtlcSigValidationJobs builds success txs for incoming and timeout txs for outgoing HTLCs of the local commitment with (IsInitiator, LocalChanCfg.CsvDelay, localOutputIndex); both subtract the matching fee function at the fee rate of the commitment being signed / verified, pass their leaseExpiry parameter, and use keyRing.RevocationKey/ToLocalKey; the verifier's success closure is created below incomingHTLCIndex[outputIndex] != nil and reads the HTLC taken from that index (timeout: outgoingHTLCIndex); every sighash computation of the verifier and every sign descriptor of the signer uses the result of HtlcSigHashType(chanType)",
+		"the verifier must rebuild byte-for-byte what the signer signed; any asymmetric argument makes every HTLC signature invalid for some channel type", 16,
 		func(o *an.Obl) {
 			pp := `\$p\d+`
 			roleSites(o, p, []string{"lnwallet"}, lw+"CreateHtlcTimeoutTx", []role{
 				{Fn: lw + "genRemoteHtlcSigJobs", Name: "signer/incoming->timeout", Args: map[int]string{
-					1: `^!` + pp + `\.IsInitiator$`, 2: `incomingHTLCs\)\.remoteOutputIndex`, 3: `incomingHTLCs\)\.Amount\.ToSatoshis\(\) - lnwallet\.HtlcTimeoutFee\(`,
-					4: `incomingHTLCs\)\.Timeout$`, 5: `RemoteChanCfg\.CsvDelay`, 7: `\.RevocationKey$`, 8: `\.ToLocalKey$`}},
+					1: `^!` + pp + `\.IsInitiator$`, 2: `incomingHTLCs\)\.remoteOutputIndex`, 3: `incomingHTLCs\)\.Amount\.ToSatoshis\(\) - lnwallet\.HtlcTimeoutFee\(\$p1\.ChanType, \$p3\.feePerKw\)\)$`,
+					4: `incomingHTLCs\)\.Timeout$`, 5: `RemoteChanCfg\.CsvDelay`, 6: `^\$p2$`, 7: `\.RevocationKey$`, 8: `\.ToLocalKey$`}},
 				{Fn: lw + "genHtlcSigValidationJobs", Name: "verifier/outgoing->timeout", Args: map[int]string{
-					1: `^` + pp + `\.IsInitiator$`, 2: `localOutputIndex`, 3: `Amount\.ToSatoshis\(\) - lnwallet\.HtlcTimeoutFee\(`,
-					4: `\.Timeout$`, 5: `LocalChanCfg\.CsvDelay`, 7: `\.RevocationKey$`, 8: `\.ToLocalKey$`}},
+					1: `^` + pp + `\.IsInitiator$`, 2: `localOutputIndex`, 3: `Amount\.ToSatoshis\(\) - lnwallet\.HtlcTimeoutFee\(\$p0\.ChanType, \$p1\.feePerKw\)\)$`,
+					4: `\.Timeout$`, 5: `LocalChanCfg\.CsvDelay`, 6: `^\$p4$`, 7: `\.RevocationKey$`, 8: `\.ToLocalKey$`}},
 				{Fn: lw + "newOutgoingHtlcResolution", Name: "resolution/outgoing->timeout (C05)", Args: map[int]string{
 					3: `Amt\.ToSatoshis\(\) - lnwallet\.HtlcTimeoutFee\(`, 4: `RefundTimeout$`, 7: `\.RevocationKey$`, 8: `\.ToLocalKey$`}},
 			}, nil)
 			roleSites(o, p, []string{"lnwallet"}, lw+"CreateHtlcSuccessTx", []role{
 				{Fn: lw + "genRemoteHtlcSigJobs", Name: "signer/outgoing->success", Args: map[int]string{
-					1: `^!` + pp + `\.IsInitiator$`, 2: `outgoingHTLCs\)\.remoteOutputIndex`, 3: `outgoingHTLCs\)\.Amount\.ToSatoshis\(\) - lnwallet\.HtlcSuccessFee\(`,
-					4: `RemoteChanCfg\.CsvDelay`, 6: `\.RevocationKey$`, 7: `\.ToLocalKey$`}},
+					1: `^!` + pp + `\.IsInitiator$`, 2: `outgoingHTLCs\)\.remoteOutputIndex`, 3: `outgoingHTLCs\)\.Amount\.ToSatoshis\(\) - lnwallet\.HtlcSuccessFee\(\$p1\.ChanType, \$p3\.feePerKw\)\)$`,
+					4: `RemoteChanCfg\.CsvDelay`, 5: `^\$p2$`, 6: `\.RevocationKey$`, 7: `\.ToLocalKey$`}},
 				{Fn: lw + "genHtlcSigValidationJobs", Name: "verifier/incoming->success", Args: map[int]string{
-					1: `^` + pp + `\.IsInitiator$`, 2: `localOutputIndex`, 3: `Amount\.ToSatoshis\(\) - lnwallet\.HtlcSuccessFee\(`,
-					4: `LocalChanCfg\.CsvDelay`, 6: `\.RevocationKey$`, 7: `\.ToLocalKey$`}},
+					1: `^` + pp + `\.IsInitiator$`, 2: `localOutputIndex`, 3: `Amount\.ToSatoshis\(\) - lnwallet\.HtlcSuccessFee\(\$p0\.ChanType, \$p1\.feePerKw\)\)$`,
+					4: `LocalChanCfg\.CsvDelay`, 5: `^\$p4$`, 6: `\.RevocationKey$`, 7: `\.ToLocalKey$`}},
 				{Fn: lw + "newIncomingHtlcResolution", Name: "resolution/incoming->success (C05)", Args: map[int]string{
 					3: `Amt\.ToSatoshis\(\) - lnwallet\.HtlcSuccessFee\(`, 6: `\.RevocationKey$`, 7: `\.ToLocalKey$`}},
 			}, nil)
@@ -138,18 +139,29 @@ func runC01(r *an.Run) {
 					o.FailAt(fn+"#HtlcSigHashType", "", "%s no longer derives the sighash type through HtlcSigHashType", fn)
 				}
 			}
+			c01SigHashTypes(o, p.Func(lw+"genRemoteHtlcSigJobs"), v)
+			c01VerifierFeeds(o, v, lw+"CreateHtlcSuccessTx", "incomingHTLCIndex")
+			c01VerifierFeeds(o, v, lw+"CreateHtlcTimeoutTx", "outgoingHTLCIndex")
 		})
 
 	r.Obl("construction-guards", "GUARD",
-		"every success return of createUnsignedCommitmentTx is below !(totalOut+commitFee > Capacity), CheckTransactionSanity ok, SetStateNumHint ok and the sort ok, and all addHTLC calls precede the sort; every success return of fetchCommitmentView is below !(effFeeRate < AbsoluteFeePerKwFloor), createUnsignedCommitmentTx ok and populateHtlcIndexes ok",
-		"outputs plus fee must never exceed capacity; an unsorted or un-hinted transaction differs from the peer's", 10,
+		"every success return of createUnsignedCommitmentTx is below !(totalOut+commitFee > Capacity), CheckTransactionSanity ok, SetStateNumHint ok and the sort ok, and all addHTLC calls precede the sort; the state hint encodes the height parameter under the channel's obfuscator; every success return of fetchCommitmentView is below !(effFeeRate < AbsoluteFeePerKwFloor) where effFeeRate = (Capacity - sum of the outputs of the built transaction) * 1000 / weight, the builder receives tip().height+1 as height and the commitment stores the same height, createUnsignedCommitmentTx ok and populateHtlcIndexes ok",
+		"outputs plus fee must never exceed capacity; an unsorted or un-hinted transaction differs from the peer's", 15,
 		func(o *an.Obl) {
 			f := p.Func(lw + "CommitmentBuilder.createUnsignedCommitmentTx")
 			succ := f.StrictSuccessReturns()
 			capGuard := an.Cmp(an.Bin(tokADD, an.Any(), an.Any()), an.LE, an.FieldPath(nil, "Capacity"), "totalOut+commitFee <= Capacity")
 			guardedAll(o, f, succ, capGuard)
 			mustPass(o, f, "CheckTransactionSanity", f.Calls(an.CalleeNamed("CheckTransactionSanity"), false), an.OkErrNil, succ)
-			mustPass(o, f, "SetStateNumHint", f.Calls(an.CalleeIs(lw+"SetStateNumHint"), false), an.OkErrNil, succ)
+			hints := f.Calls(an.CalleeIs(lw+"SetStateNumHint"), false)
+			mustPass(o, f, "SetStateNumHint", hints, an.OkErrNil, succ)
+			if needExactly(o, f, "SetStateNumHint", hints, 1) {
+				// the hint encodes the height parameter under the channel's obfuscator
+				if a := f.ArgCanon(hints[0]); a[1] != "$p4" || a[2] != "$recv.obfuscator" {
+					o.FailAt(f.ID+"#state-hint-args", hints[0].Where(), "SetStateNumHint must encode the commitment height parameter under the channel's obfuscator; got (%s, %s)", a[1], a[2])
+				}
+				notReassigned(o, f, f.Params(false)[4].Name())
+			}
 			// the sort is a call of a function value obtained from
 			// CommitSortFunc.UnwrapOr(DefaultCommitSort)
 			sortCalls := f.CallsMatching(func(fn *an.Func, e ast.Expr) bool {
@@ -176,16 +188,19 @@ func runC01(r *an.Run) {
 			}
 			g := p.Func(lw + "LightningChannel.fetchCommitmentView")
 			gs := g.StrictSuccessReturns()
-			floor := an.Cmp(an.Any(), an.GE, an.PkgVar("lnwallet/chainfee", "AbsoluteFeePerKwFloor"), "effFeeRate >= AbsoluteFeePerKwFloor")
+			// effFeeRate = (Capacity - sum of the outputs) * 1000 / (weight + witness weight)
+			effRate := canonTerm(`^\(\(\S*SatPerKWeight\(\(\$recv\.channelState\.Capacity - \$v:\S*Amount\)\) \* 1000\) / \S*SatPerKWeight\(\(\S*GetTransactionWeight\(.*\) \+ \$v:int64\)\)\)$`)
+			floor := an.Cmp(effRate, an.GE, an.PkgVar("lnwallet/chainfee", "AbsoluteFeePerKwFloor"), "effFeeRate >= AbsoluteFeePerKwFloor")
 			guardedAll(o, g, gs, floor)
+			c01EffectiveFeeInputs(o, g)
 			mustPass(o, g, "createUnsignedCommitmentTx", g.Calls(an.CalleeIs(lw+"CommitmentBuilder.createUnsignedCommitmentTx"), false), an.OkErrNil, gs)
 			mustPass(o, g, "populateHtlcIndexes", g.Calls(an.CalleeIs(lw+"commitment.populateHtlcIndexes"), false), an.OkErrNil, gs)
 			mustPass(o, g, "computeView", g.Calls(an.CalleeIs(lw+"LightningChannel.computeView"), false), an.OkErrNil, gs)
 		})
 
 	r.Obl("fee-borne-by-opener", "TABLE",
-		"the fee switch of createUnsignedCommitmentTx: ourBalance is written only below IsInitiator, theirBalance only below !IsInitiator; zeroing happens only below fee > balance of the same side; computeView credits the previous fee back to the same side it will be charged to",
-		"the commitment fee aside (always borne by the opener) a balance moves only by HTLC amounts", 6,
+		"the fee switch of createUnsignedCommitmentTx: ourBalance is written only below IsInitiator, theirBalance only below !IsInitiator; zeroing happens only below fee > balance of the same side; the debit is NewMSatFromSatoshis of the compared fee; the returned unsignedCommitmentTx carries the two balance parameters and that fee, and the capacity check adds that fee to the sum of the outputs; apart from applying the deltas of evaluateHTLCView (tabled by balance-moves-by-entry-amount) computeView writes each returned balance exactly twice: start from tip().ourBalance / theirBalance of the chain selected by whoseCommitChain, and credit the previous fee of that same tip back to the opener (ourBalance below IsInitiator, theirBalance below !IsInitiator)",
+		"the commitment fee aside (always borne by the opener) a balance moves only by HTLC amounts", 16,
 		func(o *an.Obl) {
 			f := p.Func(lw + "CommitmentBuilder.createUnsignedCommitmentTx")
 			isInit := an.FieldPath(nil, "IsInitiator")
@@ -212,6 +227,12 @@ func runC01(r *an.Run) {
 				o.FailAt(f.ID+"#fee-atoms", f.Where(f.Body.Pos()), "cannot find the `commitFee > balance.ToSatoshis()` tests of the fee switch")
 				return
 			}
+			fee := c01FeeCanon(atoms)
+			if fee == "" {
+				o.FailAt(f.ID+"#fee-atoms-differ", f.Where(f.Body.Pos()), "the two sides of the fee switch compare different fees: %s / %s", atoms[1], atoms[2])
+				return
+			}
+			c01BuilderResult(o, f, fee)
 			kind := func(s an.Site) string {
 				as := s.Node.(*ast.AssignStmt)
 				who := "our"
@@ -222,6 +243,10 @@ func runC01(r *an.Run) {
 					return who + "=0"
 				}
 				if as.Tok == tokSUBASSIGN {
+					// the debit is the compared fee, converted to millisatoshi
+					if rhs := f.Canon(as.Rhs[0]); rhs != "lnwire.NewMSatFromSatoshis("+fee+")" {
+						return who + "-=" + rhs
+					}
 					return who + "-=fee"
 				}
 				return who + "?" + an.Text(as)
@@ -251,6 +276,7 @@ func runC01(r *an.Run) {
 				}
 			}
 			g := p.Func(lw + "LightningChannel.computeView")
+			c01ComputeViewBalances(o, g, isInit, "fee")
 			for _, s := range g.Assigns(an.LocalNamed("ourBalance"), false) {
 				if as, ok := s.Node.(*ast.AssignStmt); ok && as.Tok == tokADDASSIGN && strings.Contains(an.Text(as.Rhs[0]), ".fee") {
 					guarded(o, g, s, an.Truth(isInit, true, "IsInitiator"))
@@ -264,8 +290,8 @@ func runC01(r *an.Run) {
 		})
 
 	r.Obl("balance-moves-by-entry-amount", "GUARD",
-		"evaluateHTLCView: the three balanceDeltas.ModifyForParty sites credit the settling party, credit the counterparty of a failing party, and debit the adding party; each moves exactly entry.Amount; credits happen only below removeCommitHeights[whoseCommit] == 0 and the debit only below addCommitHeights[whoseCommit] == 0",
-		"a balance moves only by the amount of an HTLC that was added, settled or failed, and only once per commitment chain", 3,
+		"evaluateHTLCView: the three balanceDeltas.ModifyForParty sites credit the settling party, credit the counterparty of a failing party, and debit the adding party; each moves exactly entry.Amount; credits happen only below removeCommitHeights[whoseCommit] == 0 and the debit only below addCommitHeights[whoseCommit] == 0; evaluateNoOpHtlc is reached only for a Settle whose parent is a NoOpAdd; the debit loop ranges over fn.Filter(view.Updates.GetForParty(party), pd.isAdd() && !skip[party].Contains(pd.HtlcIndex)); computeView applies the returned deltas to the balance of the same side: ourBalance += deltas.Local below deltas.Local >= 0 and -= -deltas.Local otherwise, theirBalance likewise with deltas.Remote, and no other write of the returned balances mentions the deltas",
+		"a balance moves only by the amount of an HTLC that was added, settled or failed, and only once per commitment chain", 17,
 		func(o *an.Obl) {
 			f := p.Func(lw + "LightningChannel.evaluateHTLCView")
 			sites := f.Calls(an.CalleeNamed("ModifyForParty"), false)
@@ -289,7 +315,7 @@ func runC01(r *an.Run) {
 			}
 			for i, s := range sites {
 				a := f.ArgCanon(s)
-				if !reMatch(want[i].party, a[0]) {
+				if !reMatch(want[i].party, a[0]) || strings.Count(a[0], "CounterParty") != strings.Count(want[i].party, "CounterParty") {
 					o.FailAt(f.ID+"#delta-party-"+itoa(i), s.Where(), "balance modification %d goes to %s, expected /%s/", i, a[0], want[i].party)
 				}
 				guardedAll(o, f, []an.Site{s}, want[i].guards...)
@@ -308,11 +334,25 @@ func runC01(r *an.Run) {
 					o.FailAt(f.ID+"#delta-amount-"+itoa(i), s.Where(), "balance modification %d computes %q, expected acc %s int64(entry.Amount)", i, body, want[i].sign)
 				}
 			}
+			// the no-op arm takes only settles of no-op adds away from the
+			// credit arm
+			noop := f.Calls(an.CalleeIs(lw+"LightningChannel.evaluateNoOpHtlc"), false)
+			if needExactly(o, f, "evaluateNoOpHtlc", noop, 1) {
+				isNoOp := an.Cmp(an.FieldPath(nil, "EntryType"), an.EQ, an.PkgVar("lnwallet", "NoOpAdd"), "addEntry.EntryType == NoOpAdd")
+				guardedAll(o, f, noop, rmv0, isSettle, isNoOp)
+				if a := f.ArgCanon(noop[0]); !reMatch(`^\$elem\(`, a[0]) || a[1] != f.ArgCanon(sites[0])[0] {
+					o.FailAt(f.ID+"#noop-args", noop[0].Where(), "evaluateNoOpHtlc must receive the settle entry and the settling party; got (%s, %s)", a[0], a[1])
+				}
+			}
+			// the debit loop sees the party's adds that no settle/fail removed
+			c01LiveAddsFilter(o, f, sites[2], f.ArgCanon(sites[2])[0])
+			// computeView applies the deltas to the balance of the same side
+			c01ComputeViewBalances(o, p.Func(lw+"LightningChannel.computeView"), an.FieldPath(nil, "IsInitiator"), "deltas")
 		})
 
 	r.Obl("settle-fail-family", "GUARD",
-		"SettleHTLC, FailHTLC, MalformedFailHTLC (remote log -> local append) and ReceiveHTLCSettle, ReceiveFailHTLC (local log -> remote append): appendUpdate is below lookupHtlc != nil and !htlcHasModification on the log the HTLC lives in, is followed on every path by markHtlcModified on that log, and the two settle variants are additionally below RHash == sha256(preimage); appendUpdate has no other caller for Settle/Fail entries",
-		"a second settle/fail of one HTLC, or a settle with a wrong preimage, moves a balance twice or without the payment being claimable upstream", 20,
+		"SettleHTLC, FailHTLC, MalformedFailHTLC (remote log -> local append) and ReceiveHTLCSettle, ReceiveFailHTLC (local log -> remote append): appendUpdate is below lookupHtlc != nil and !htlcHasModification on the log the HTLC lives in, is followed on every path by markHtlcModified(htlcIndex) on that log, and the two settle variants are additionally below lookupHtlc(htlcIndex).RHash == sha256(preimage[:]) of the preimage parameter; the appended entry is stamped with the logIndex of the log it is appended to, carries the looked-up HTLC's amount, the HTLC index as ParentIndex and the entry type of the entry point; appendUpdate has no other caller for Settle/Fail entries",
+		"a second settle/fail of one HTLC, or a settle with a wrong preimage, moves a balance twice or without the payment being claimable upstream", 30,
 		func(o *an.Obl) {
 			type fam struct {
 				fn, from, to string
@@ -333,12 +373,15 @@ func runC01(r *an.Run) {
 				guarded(o, f, app[0], an.IsNil(an.CallTo(lw+"updateLog.lookupHtlc", fromLog, an.Param(indexParam(m.fn))), false, "lookupHtlc(htlcIndex) != nil"))
 				guarded(o, f, app[0], an.Truth(an.CallTo(lw+"updateLog.htlcHasModification", fromLog, an.Param(indexParam(m.fn))), false, "!htlcHasModification(htlcIndex)"))
 				if m.settle {
-					guarded(o, f, app[0], an.Cmp(an.FieldPath(nil, "RHash"), an.EQ, an.CallTo("crypto/sha256.Sum256", nil), "htlc.RHash == sha256(preimage)"))
+					looked := an.CallTo(lw+"updateLog.lookupHtlc", fromLog, an.Param(indexParam(m.fn)))
+					guarded(o, f, app[0], an.Cmp(an.Field("", "RHash", looked), an.EQ, an.CallTo("crypto/sha256.Sum256", nil, canonTerm(`^\$p0\[:\]$`)), "lookupHtlc(htlcIndex).RHash == sha256(preimage[:])"))
 				}
-				mark := f.CallsMatching(an.CallTo(lw+"updateLog.markHtlcModified", fromLog), false)
+				c01FamilyDescriptor(o, f, app[0], m.fn, m.from, m.to, indexParam(m.fn), m.settle)
+				notReassigned(o, f, f.Params(false)[0].Name(), f.Params(false)[1].Name())
+				mark := f.CallsMatching(an.CallTo(lw+"updateLog.markHtlcModified", fromLog, an.Param(indexParam(m.fn))), false)
 				o.Site("%s: markHtlcModified sites %d", m.fn, len(mark))
 				if len(mark) == 0 || !f.PostDominated(app[0], mark) {
-					o.FailAt(f.ID+"#markHtlcModified", app[0].Where(), "%s: appendUpdate is not followed on every path by markHtlcModified on updateLogs.%s", m.fn, m.from)
+					o.FailAt(f.ID+"#markHtlcModified", app[0].Where(), "%s: appendUpdate is not followed on every path by markHtlcModified(htlcIndex) on updateLogs.%s", m.fn, m.from)
 				}
 			}
 			// no other sibling appends Settle/Fail entries
@@ -359,8 +402,8 @@ func runC01(r *an.Run) {
 		})
 
 	r.Obl("update-log-counters", "STATE",
-		"updateLog.logIndex and htlcCounter are written only by ++ in appendUpdate/appendHtlc (the constructor sets them in its literal); the restore methods never write them",
-		"log indexes identify updates across both peers; a counter that is reset or skipped desynchronises every later commitment", 4,
+		"updateLog.logIndex and htlcCounter are written only by ++ in appendUpdate/appendHtlc, exactly once per counter and function (the constructor newUpdateLog(logIndex, htlcCounter) stores its first parameter in logIndex and its second in htlcCounter, and its callers pass the <Side>LogIndex / <Side>HtlcIndex pair of one commitment); the restore methods never write them",
+		"log indexes identify updates across both peers; a counter that is reset or skipped desynchronises every later commitment", 7,
 		func(o *an.Obl) {
 			allowed := map[string]map[string]bool{
 				"logIndex":    {lw + "updateLog.appendUpdate": true, lw + "updateLog.appendHtlc": true},
@@ -368,6 +411,7 @@ func runC01(r *an.Run) {
 			}
 			for fld, ok := range allowed {
 				n := 0
+				incs := map[string]int{}
 				for _, f := range p.Funcs(false, "lnwallet") {
 					for _, s := range f.Assigns(an.Field(lw+"updateLog", fld, nil), false) {
 						n++
@@ -380,19 +424,23 @@ func runC01(r *an.Run) {
 						case *ast.IncDecStmt:
 							if st.Tok != tokINC {
 								o.FailAt("updateLog."+fld+"#dec", s.Where(), "counter is decremented")
+							} else {
+								incs[f.Root().ID]++
 							}
-						case *ast.AssignStmt:
-							// restore form: x = idx + 1 below idx >= x
-							if strings.HasPrefix(f.Root().ID, lw+"updateLog.restore") {
-								if ok, _ := f.Guarded(s, an.Cmp(an.Any(), an.GE, an.Field(lw+"updateLog", fld, nil), "restored index >= counter")); !ok {
-									o.FailAt("updateLog."+fld+"#restore-lowering", s.Where(), "%s may lower updateLog.%s: the assignment is not below `index >= counter`", f.Root().ID, fld)
-								}
-							}
+						default:
+							// =, +=, -= ...: the counter would skip or repeat an index
+							o.FailAt("updateLog."+fld+"#not-increment", s.Where(), "%s writes updateLog.%s by %s; the counters advance by ++ only", f.Root().ID, fld, an.Text(s.Node))
 						}
 					}
 				}
 				if n == 0 {
 					o.FailAt("updateLog."+fld+"#no-writers", "", "no writer of updateLog.%s found", fld)
+				}
+				// every append advances each of its counters by exactly one
+				for fn := range ok {
+					if incs[fn] != 1 {
+						o.FailAt("updateLog."+fld+"#increments<-"+fn, "", "%s must advance updateLog.%s exactly once per appended entry; found %d increments", fn, fld, incs[fn])
+					}
 				}
 			}
 			// composite literals of updateLog only in the constructor
@@ -406,7 +454,9 @@ func runC01(r *an.Run) {
 					o.FailAt("updateLog-literal<-"+id, ref.Where, "updateLog constructed outside newUpdateLog")
 				}
 			}
+			c01CounterConstructor(o, p)
 		})
+	c01RestoreConvertersAgree(r)
 	windowDiscipline(r)
 	modifiedMarkerDiscipline(r)
 	persistRestoreKindAgreement(r)
